@@ -22,10 +22,10 @@ PROPS = {
     },
     "C08": {
         "families": [
-            fam("c08.negates", 2500, 40000),
-            fam("c08.removebad", 2500, 40000),
-            fam("c08.engine", 1500, 20000),
-            fam("c08.rewrites", 1000, 20000),
+            fam("c08.negates", 2500, 25000),
+            fam("c08.removebad", 2500, 15000),
+            fam("c08.engine", 1500, 8000),
+            fam("c08.rewrites", 1000, 8000),
         ],
         "defects": ["D7", "D14"],
         "rule": "c08.negates: (x$badfilter, x), near-twins differing in exactly one modifier value (incl. $denyallow, $dnstype, $dnsrewrite, "
@@ -53,11 +53,13 @@ PROPS = {
     },
     "C06": {
         "families": [
-            fam("c06.result", 1500, 25000),
-            fam("c06.dnsbasic", 1500, 25000),
-            fam("c06.engine", 1000, 15000),
+            fam("c06.result", 1500, 12000, seeds=3),
+            fam("c06.dnsbasic", 1500, 12000, seeds=3),
+            fam("c06.engine", 1000, 8000, seeds=3),
+            # all singletons and all (rule, source rule) / (rule, rule) pairs of the pool in the thorough tier (seed-independent)
+            fam("c06.pairs", 400, 1000000, seeds=1),
             # $replace/$cookie/$csp/$redirect bits set by the harness through reflection: go vs MODEL only
-            fam("c06.resultx", 1000, 15000),
+            fam("c06.resultx", 1000, 8000, seeds=3),
         ],
         "defects": ["D5"],
         "rule": "multisets (size 0-6 rules, 0-3 source rules, with badfilter twins) over a pool realising all combinations of {exception, "
